@@ -756,6 +756,20 @@ pub fn ref_encode(shape: &Shape, val: &Val, out: &mut Vec<u8>) {
 
 pub struct SV<'a>(pub &'a Shape, pub &'a Val);
 
+/// Long strings and byte arrays reach the serializer at every alignment: heap blocks handed over
+/// whole are 16-aligned, so for a source of `len` bytes (64 or more) with `len % 8 != 0` a copy
+/// is made that starts `len % 8` bytes into its allocation. (A function of the data only.)
+fn misaligned(src: &[u8]) -> Option<(Vec<u8>, usize)> {
+    let k = src.len() % 8;
+    if src.len() < 64 || k == 0 {
+        return None;
+    }
+    let mut v = Vec::with_capacity(src.len() + k);
+    v.resize(k, 0xA5);
+    v.extend_from_slice(src);
+    Some((v, k))
+}
+
 struct DisplayAs<'a>(&'a str);
 impl fmt::Display for DisplayAs<'_> {
     fn fmt(&self, f: &mut fmt::Formatter<'_>) -> fmt::Result {
@@ -834,9 +848,16 @@ impl Serialize for SV<'_> {
             (F32, Val::F32(b)) => s.serialize_f32(f32::from_bits(*b)),
             (F64, Val::F64(b)) => s.serialize_f64(f64::from_bits(*b)),
             (Char, Val::Char(c)) => s.serialize_char(*c),
-            (Str, Val::Str(x)) => s.serialize_str(x),
+            (Str, Val::Str(x)) => match misaligned(x.as_bytes()) {
+                // (bytes copied from a `str`: still valid UTF-8)
+                Some((v, k)) => s.serialize_str(std::str::from_utf8(&v[k..]).map_err(|_| serde::ser::Error::custom("harness"))?),
+                None => s.serialize_str(x),
+            },
             (DisplayStr, Val::Str(x)) => s.collect_str(&DisplayAs(x)),
-            (Bytes, Val::Bytes(b)) => s.serialize_bytes(b),
+            (Bytes, Val::Bytes(b)) => match misaligned(b) {
+                Some((v, k)) => s.serialize_bytes(&v[k..]),
+                None => s.serialize_bytes(b),
+            },
             (Option(_), Val::Opt(None)) => s.serialize_none(),
             (Option(sh), Val::Opt(Some(v))) => s.serialize_some(&SV(sh, v)),
             (Unit, Val::Unit) => s.serialize_unit(),
